@@ -306,7 +306,7 @@ func newWorld(name string) (*world, error) {
 	// a second funding transaction, confirmed and then marked by the regulator's ledger call
 	mtx := &pb.Transaction{Version: 3, Nonce: "c07-mfund", Timestamp: 3, Desc: []byte("mfund")}
 	mtx.TxInputs = []*protos.TxInput{{RefTxid: ftx.Txid, RefOffset: off, FromAddr: []byte(bank.Address), Amount: big.NewInt(total).Bytes()}}
-	for _, o := range owners {
+	for _, o := range owners[:7] { // not the contract: its pre-executed payment must not refer to the marked transaction
 		for i := 0; i < outsPer; i++ {
 			mtx.TxOutputs = append(mtx.TxOutputs, &protos.TxOutput{ToAddr: []byte(w.name(o)), Amount: big.NewInt(outAmount).Bytes()})
 			total -= outAmount
@@ -330,7 +330,7 @@ func newWorld(name string) (*world, error) {
 	}
 	w.mfund = mtx
 	off = 0
-	for _, o := range owners {
+	for _, o := range owners[:7] {
 		for i := 0; i < outsPer; i++ {
 			w.mouts[o] = append(w.mouts[o], utxoRef{mtx.Txid, off, big.NewInt(outAmount).Bytes()})
 			off++
